@@ -22,6 +22,20 @@ fn main() {
         None
     };
     vp::par::install_quiet_panic_hook();
+    // resident-set watchdog: a check that outgrows the machine is a machinery
+    // failure (exit 3), never a verdict and never an OOM kill of something else
+    let cap_gb: u64 = std::env::var("VERIF_RSS_CAP_GB").ok().and_then(|v| v.parse().ok()).unwrap_or(40);
+    std::thread::spawn(move || loop {
+        std::thread::sleep(std::time::Duration::from_secs(2));
+        if let Ok(statm) = std::fs::read_to_string("/proc/self/statm") {
+            let pages: u64 = statm.split_whitespace().nth(1).and_then(|v| v.parse().ok()).unwrap_or(0);
+            let gb = pages * 4096 / (1 << 30);
+            if gb >= cap_gb {
+                eprintln!("MACHINERY: resident set {} GB reached the cap of {} GB (VERIF_RSS_CAP_GB); aborting the check", gb, cap_gb);
+                std::process::exit(3);
+            }
+        }
+    });
     let code = match id {
         "C01" => vp::c01::main(tier, replay),
         "C02" => vp::c02::main(tier, replay),
